@@ -48,11 +48,11 @@ func checkOrder(l lm.List) (lm.List, string, string) {
 
 // mergeCase: model of one Merge call.
 type mergeCase struct {
-	A, B         lm.List
-	ASt, BSt     []string // style ids defined in A / B
-	ARg, BRg     []string
-	Receiver     int // 0 NewSubtitles, 1 &Subtitles{} (nil maps), 2 Subtitles{Items:...} value with nil maps
-	Unit         int64
+	A, B     lm.List
+	ASt, BSt []string // style ids defined in A / B
+	ARg, BRg []string
+	Receiver int // 0 NewSubtitles, 1 &Subtitles{} (nil maps), 2 Subtitles{Items:...} value with nil maps
+	Unit     int64
 }
 
 func defs(tag string, ids []string) (map[string]*astisub.Style, map[string]*astisub.Region) {
